@@ -1,6 +1,7 @@
 import SfVerif.Gen.Abi
 import SfVerif.Gen.AbiTool
 import SfVerif.Gen.Enums
+import SfVerif.Gen.ApiStatus
 /-! C15 — all descriptions of the ABI agree. The quantifier is a finite table (every function of
     the ABI × every artefact), regenerated from /repo on every run; `decide +kernel` over the whole
     table is therefore a proof, re-done against what the artefacts say now. -/
@@ -60,6 +61,15 @@ theorem C15_header_defines :
     headerDefines = [([87, 82, 73, 84, 69, 95, 82, 69, 83, 85, 76, 84, 95, 69, 82, 82, 79, 82], WriteResult_IoError),
                      ([87, 82, 73, 84, 69, 95, 82, 69, 83, 85, 76, 84, 95, 79, 75], WriteResult_Ok)] := by
   decide +kernel
+
+/-- the api crate reports every provider status under the name it has in the code table: its
+    status-to-error match has one arm per `WriteResult` variant, in the order of the numbers, `Ok` is
+    success, every other status becomes the `Error` variant of the same name, and a number outside the
+    table becomes `Unknown` -/
+theorem C15_api_status_names :
+    apiWriteStatusMap.map (·.1) = WriteResult_table.map (·.1) ∧
+    (∀ p ∈ apiWriteStatusMap, p.2 = p.1) ∧
+    apiWriteStatusUnknown = [85, 110, 107, 110, 111, 119, 110] := by decide +kernel
 
 /-- non-vacuity: the tables are not empty (19 functions, 20 emitted imports) -/
 example : abiWat.length = 19 ∧ trampolineEmits.length = 20 ∧ providerExports.length ≥ 20 := by decide +kernel
